@@ -67,7 +67,8 @@ class ThreadingShim:
 
 
 class _Rewrite(ast.NodeTransformer):
-    def __init__(self, names, lock_attrs, fine):
+    def __init__(self, names, lock_attrs, fine, plain_receivers=()):
+        self.plain_receivers = set(plain_receivers)
         self.names = names
         self.lock_attrs = lock_attrs
         self.fine = fine
@@ -119,6 +120,10 @@ class _Rewrite(ast.NodeTransformer):
         self.generic_visit(node)
         f = node.func
         if isinstance(f, ast.Attribute) and f.attr in self.names:
+            recv = f.value
+            # `self.data.get(...)`: a plain container that happens to have a method of the same name
+            if isinstance(recv, ast.Attribute) and recv.attr in self.plain_receivers:
+                return node
             f.attr = f.attr + "_gen"
             return ast.YieldFrom(node)
         return node
@@ -158,7 +163,7 @@ class _Rewrite(ast.NodeTransformer):
 SOURCES = {}
 
 
-def install(targets, lock_attrs, fine):
+def install(targets, lock_attrs, fine, plain_receivers=()):
     """targets: [(cls, method_name)].  Returns {(cls_name, method): generated source}."""
     names = {n for _, n in targets}
     out = {}
@@ -167,7 +172,7 @@ def install(targets, lock_attrs, fine):
         fn = getattr(fn, "__func__", fn)
         src = textwrap.dedent(inspect.getsource(fn))
         f = ast.parse(src).body[0]
-        rw = _Rewrite(names, lock_attrs, fine)
+        rw = _Rewrite(names, lock_attrs, fine, plain_receivers)
         f = rw.visit(f)
         f.name = name + "_gen"
         # a generator needs at least one yield
